@@ -1691,8 +1691,9 @@ static void *peg_unmarshal(JanetMarshalContext *ctx) {
                 i += 4;
                 break;
             case RULE_ARGUMENT:
-                /* [searchtag, tag] */
+                /* [index, tag] - the index is used as a signed int */
                 PEG_NEED(3);
+                if (rule[1] > INT32_MAX) goto bad;
                 i += 3;
                 break;
             case RULE_GETTAG:
